@@ -5,6 +5,7 @@ import (
 	"fmt"
 	"sort"
 
+	dragonboat "github.com/lni/dragonboat/v4"
 	"github.com/lni/dragonboat/v4/config"
 	"github.com/lni/dragonboat/v4/internal/logdb"
 	"github.com/lni/dragonboat/v4/internal/raft"
@@ -345,12 +346,13 @@ func (r *replica) step(crashAt int) bool {
 		r.applyRaftUpdates(ud)
 	}
 	// node.sendReplicateMessages: Replicate messages go out before the update
-	// is persisted unless the leadership just changed; their commit index is
-	// capped at what has been persisted locally
+	// is persisted unless the leadership just changed or they may be addressed
+	// to a witness; their commit index is capped at what has been persisted
+	// locally. The rules themselves are node.go's (exported under the verif tag).
 	sendReplicate := func() {
 		_, persisted := r.lr.GetRange()
 		for _, m := range ud.Messages {
-			if m.Type == pb.Replicate || m.Type == pb.Ping {
+			if dragonboat.VerifIsFreeOrderMessage(m) && !dragonboat.VerifReplicateToWitness(m) {
 				m.ShardID = r.cfg.ShardID
 				if m.Type == pb.Replicate && m.Commit > persisted {
 					m.Commit = persisted
@@ -359,7 +361,7 @@ func (r *replica) step(crashAt int) bool {
 			}
 		}
 	}
-	replicateAfterPersist := ud.LeaderUpdate.Term != 0
+	replicateAfterPersist := dragonboat.VerifReplicateAfterPersist(ud)
 	if !replicateAfterPersist {
 		sendReplicate()
 	}
@@ -389,8 +391,16 @@ func (r *replica) step(crashAt int) bool {
 	if replicateAfterPersist {
 		sendReplicate()
 	}
+	// node.sendWitnessReplicateMessages
 	for _, m := range ud.Messages {
-		if !(m.Type == pb.Replicate || m.Type == pb.Ping) {
+		if dragonboat.VerifReplicateToWitness(m) {
+			m.ShardID = r.cfg.ShardID
+			r.sim.send(r, m)
+		}
+	}
+	// node.sendMessages
+	for _, m := range ud.Messages {
+		if !dragonboat.VerifIsFreeOrderMessage(m) {
 			m.ShardID = r.cfg.ShardID
 			r.sim.send(r, m)
 		}
